@@ -389,9 +389,13 @@ def run_documents():
     reps = [True, 7, 1.5, "txt", "true", date(2024, 1, 31), datetime(2024, 1, 31, 12, 34, 56), timedelta(hours=1, seconds=5)]
     for v1, v2 in itertools.product(reps, reps):
         n += 1
-        doc.meta.set_user_defined_metadata("k", v1)
-        doc.meta.set_user_defined_metadata("k", v2)
-        back = doc.meta.get_user_defined_metadata().get("k")
+        try:
+            doc.meta.set_user_defined_metadata("k", v1)
+            doc.meta.set_user_defined_metadata("k", v2)
+            back = doc.meta.get_user_defined_metadata().get("k")
+        except Exception as ex:
+            back = f"{type(ex).__name__}: {ex}"[:100]
+            doc = Document("text")
         if not equal(v2, back):
             fails.append({"signature": f"site=Meta.set_user_defined_metadata; class=overwrite:{vclass(v1).split(',')[0]}->{vclass(v2).split(',')[0]}; symptom=leftover-or-wrong-value",
                           "replay": {"replay_module": "mc.checks.c06", "site": "Meta.set_user_defined_metadata", "value": [repr(v1), repr(v2)], "stage": "overwrite", "history": [], "oracle": "overwrite", "expected": repr(v2), "actual": repr(back)}})
